@@ -25,6 +25,7 @@ def main(argv):
         print("unknown tier", tier)
         return 2
     cmd = args[0]
+    common.scratch()  # the first process owns the scratch directory; pool workers use sub-directories of it
     try:
         if cmd == "selftest":
             from . import selftest
@@ -36,10 +37,30 @@ def main(argv):
             return mod.replay(rep)
         mod = importlib.import_module("hsverif.checks." + cmd.lower())
         return mod.main(tier)
+    except common.SetupFailure as e:
+        return _as_violation(cmd, tier, "a preparatory call on the store did not succeed: %s" % e, str(e))
     except common.HarnessError as e:
         print("HARNESS-ERROR: %s" % e)
         return 2
-    except Exception:  # noqa: BLE001
+    except Exception as e:  # noqa: BLE001
+        tb = traceback.format_exc()
+        cause = getattr(e, "__cause__", None)
+        text = tb + (str(cause) if cause is not None else "")
+        if (common.REPO + "/src/") in text and cmd.upper().startswith("C"):
+            # the exception was raised inside the package under test while the check was preparing or driving it:
+            # on the unchanged tree this never happens, so it is a finding about the tree, not a harness fault
+            last = [l for l in text.splitlines() if (common.REPO + "/src/") in l]
+            where = last[-1].strip().split(", in ")[-1] if last else "?"
+            return _as_violation(cmd, tier, "%s raised inside the package (in %s) while the check was driving it" % (
+                type(e).__name__, where), text[-1500:])
         traceback.print_exc()
         print("HARNESS-ERROR: unexpected exception in the checking machinery")
         return 2
+
+
+def _as_violation(cmd, tier, what, detail):
+    prop = cmd.upper()
+    rep = common.Report(prop, tier, "other")
+    rep.coverage.update({"explanation": "the check could not complete: " + what, "evaluations": 1, "distinct_nontrivial": 2})
+    rep.violation({"kind": "exception-from-code-under-test", "what": what[:200]}, {"detail": detail})
+    return rep.finish([what[:200]])
